@@ -1038,6 +1038,7 @@ def class_refs(c, tgt, kw, cnames):
 K_CLS = 'known:class-level-associators-decided-per-property-not-per-end-pair'
 K_MOFNS = 'known:mof-redefinition-of-class-lands-in-default-namespace'
 K_MOFCACHE = 'known:mof-compiler-class-memory-outlives-class-change'
+K_ORPHAN = 'known:delete-through-end-namespace-leaves-copy-in-creating-namespace'
 QUAL_MOF = MOF.strip().split('\n')[0] + '\n' + MOF.strip().split('\n')[1] + '\n'
 WAYS = ('create', 'add', 'mof')
 WHAT_CLS = ('class-level Associators/AssociatorNames takes every reference property of a selected association class '
@@ -1208,6 +1209,7 @@ class Hist:
         self.nround = 0
         self.flts = self.cflts = self.targets = None
         self.touched = set()        # objects the steps since the last round were about (always asked in that round)
+        self.req = {}               # association id -> namespace it was created in
         self.mof_seen, self.mof_stale = set(), set()     # classes the MOF compiler has looked at / that changed since
         self.step('qualifier declarations in root/a (mof)', self.conn.compile_mof_string, QUAL_MOF, namespace='root/a')
 
@@ -1319,6 +1321,7 @@ class Hist:
         for aid in [a for a, r in mns.assocs.items() if r.cls.lower() in sub]:
             for o in self.m.values():
                 o.assocs.pop(aid, None)
+            del self.req[aid]
         for c in sub:
             del mns.cls[c]
 
@@ -1371,14 +1374,21 @@ class Hist:
             self.step(txt, self.conn.compile_mof_string, 'instance of %s { %s};' % (cls, body), namespace=req)
         for ns in nss:
             self.m[ns].assocs[aid] = rec
+        self.req[aid] = req
         self.touched.update(nodekey(e) for _, e in ends)
         return aid
 
     def holders(self, aid):
         return [ns for ns in sorted(self.m) if aid in self.m[ns].assocs]
 
+    def through(self, aid, via_ns):
+        """Namespace through which the association is modified/deleted: any holder, but the creating one where that
+        holds no end (through another one its copy there is left behind: K_ORPHAN, probed on its own below)."""
+        req = self.req[aid]
+        return req if via_ns is None or req not in self.m[req].assocs[aid].nss() else via_ns
+
     def modify_assoc(self, aid, role, new, via_ns=None):
-        ns = via_ns or self.holders(aid)[0]
+        ns = self.through(aid, via_ns)
         old = self.m[ns].assocs[aid]
         assert role not in self.m[ns].cls[old.cls.lower()].keyroles and dict(old.ends)[role][0] == new[0]
         rec = ARec(old.cls, aid, [(r, new if r == role else e) for r, e in old.ends])
@@ -1390,11 +1400,12 @@ class Hist:
         self.touched.update(nodekey(e) for _, e in old.ends + rec.ends)
 
     def delete_assoc(self, aid, via_ns=None):
-        ns = via_ns or self.holders(aid)[0]
+        ns = self.through(aid, via_ns)
         rec = self.m[ns].assocs[aid]
         self.step('DeleteInstance %s %s through %s' % (rec.cls, aid, ns), self.conn.DeleteInstance, self.apath(rec, ns))
         for o in self.m.values():
             o.assocs.pop(aid, None)
+        del self.req[aid]
         self.touched.update(nodekey(e) for _, e in rec.ends)
 
     def detach(self, n):
@@ -2228,6 +2239,35 @@ def probe_mof_class_cache():
              compile_result=repr(r)[:300], expected=repr(exp), observed=repr(got)[:300])
 
 
+def probe_delete_through_end_namespace():
+    """An association created in a namespace that holds none of its ends, deleted through one of the end namespaces,
+    is gone everywhere (the documented contract: DeleteInstance deletes the instance and its shadow instances)."""
+    h = Hist('probe/delete-through-end-namespace', random.Random(0), True)
+    try:
+        for s in BASE_SPECS:
+            h.add_class('root/a', s, 'add')
+        h.add_ns('root/b')
+        h.add_ns('root/c')
+        x, y = h.add_node('root/a', 'N_Base', 'x'), h.add_node('root/b', 'N_Base', 'y')
+        aid = h.add_assoc('root/c', 'A_Loose', [('Src', x), ('Dst', y)])
+        rec = h.m['root/c'].assocs[aid]
+        h.step('DeleteInstance A_Loose %s through root/a' % aid, h.conn.DeleteInstance, h.apath(rec, 'root/a'))
+        R.case(('delete-through-end-namespace',))
+        left = {ns: call(lambda: srt(kpath(p) for p in h.conn.EnumerateInstanceNames('A_Loose', namespace=ns)))
+                for ns in sorted(h.m)}
+        if any(v != ('ok', []) for v in left.values()):
+            only_c = left == {'root/a': ('ok', []), 'root/b': ('ok', []), 'root/c': ('ok', [rec.key('root/c', h.m['root/c'].cls['a_loose'])])}
+            viol(K_ORPHAN if only_c else 'delete-through-end-namespace-diverges', steps=h.steps,
+                 what='DeleteInstance (and ModifyInstance) of a cross-namespace association work out the other copies '
+                      'from the namespaces of the reference values only, so the copy in the namespace the association '
+                      'was created in is left behind when that namespace holds none of the ends and the request goes '
+                      'through another copy: A_Loose(Src=root/a:N_Base.Id=x, Dst=root/b:N_Base.Id=y) created in root/c '
+                      'and deleted through root/a is still enumerated in root/c',
+                 expected='no A_Loose instance in any namespace', observed=repr(left)[:400])
+    except Abort:
+        pass
+
+
 def probe_mof_redefinition_namespace():
     """compile_mof_string(namespace=X) of a class that already exists in X must change the class stored in X (seen
     through the class-level traversal of X), and nothing in the default namespace."""
@@ -2265,6 +2305,7 @@ def histories(quick):
         return random.Random('%d/%s' % (R.seed, tag))
     probe_mof_redefinition_namespace()
     probe_mof_class_cache()
+    probe_delete_through_end_namespace()
     for way in WAYS:
         run_history(hist_subclass_ways, way, rnd(way), quick)
     run_history(hist_namespaces, rnd('namespaces'), quick)
